@@ -19,6 +19,12 @@ CHECKS = {
    note="Trusted: the program generator stays inside deterministic, context-local language features (no random/getenv/input, no observable shared object state); switches happen only at hook points, finer-grained races rely on TSan's happens-before analysis; a TSan report counts only if the innermost located frame of both accesses lies in /repo.",
    technique="deterministic simulation: real threads serialised by a seeded scheduler invisible to TSan, preemption + fault + lifecycle injection, differential oracle against sequential runs, TSan/ASan monitors, replayable minimised plans",
    design="DESIGN.md section 4 (C14)"),
+ "C11": dict(
+   level="fault_enumeration",
+   text="The faulty medium is the source stream: a valid program Q, built to touch the prefix state (retyped names, reused iterators, forall over existing tables, redefinition of every existing function and overload, nested blocks), is damaged at a token - the runs of one group share Q and enumerate truncation at successive token boundaries (every boundary in the thorough tier), then deletion, duplication, replacement, swap, stray block ends and EOF inside a string or comment - and delivered through Parser::parse, bloc_parse_executable and the statement-at-a-time parser, 1..3 deliveries per run. After every delivery each variable (value, type, constraint flags) and function (signature, body text) of an undisturbed twin context must be identical in the disturbed one, residue invariants must hold, and probe programs valid before must print and end identically on both. Enumeration is complete only for truncation positions of the sampled programs.",
+   note="Trusted: the twin is built by re-running the prefix in a second fresh context; names first introduced by a rejected text are excluded from the comparison as the property says; the reference lexer supplies token boundaries; prefix, Q and probes contain no runtime fault so the damaged stream is the only fault.",
+   technique="deterministic simulation: stream-fault enumeration (truncation/corruption at token boundaries) at the reader seam, twin-context differential + probe programs, ASan/UBSan monitor, replayable minimised plans",
+   design="DESIGN.md section 4 (C11)"),
 }
 
 NOT_APPLICABLE = {
